@@ -1,8 +1,8 @@
 SPECIFICATION Spec
 CONSTANTS
   NeqForeignFamily = TRUE
-  LiveResets = TRUE
-  LiveDropsIdle = FALSE
+  LiveResets = FALSE
+  LiveDropsIdle = TRUE
   Ifaces <- MCIfaces
   PktSet <- MCPkts
   QuerySet <- MCQueries
